@@ -311,11 +311,12 @@ where
                 // Set heartbeat here because in pipelined-open, the Open frame
                 // may be recved after mux loop is started
                 match &remote_idle_timeout {
+                    // zero means no time-out (and an interval of zero panics)
+                    Some(0) | None => self.heartbeat = HeartBeat::never(),
                     Some(millis) => {
                         let period = Duration::from_millis(*millis as u64);
                         self.heartbeat = HeartBeat::new(period);
                     }
-                    None => self.heartbeat = HeartBeat::never(),
                 };
             }
             FrameBody::Begin(begin) => {
